@@ -47,10 +47,36 @@ def run_scripts(ctx, scripts, chunk=400):
     return [r for ch in chunks for r in ch]
 
 
+_BIG = 10 ** 100
+
+
+def _out_of_float_range(a_tok, b_tok):
+    """the exact-rational model stands for float arithmetic only while values stay far inside the float range: an
+    implementation nan / inf / OverflowError, or a model value beyond 1e100, ends what the correspondence can compare"""
+    if a_tok is not None and (a_tok in ("r:nan", "r:inf", "r:-inf", "err:OverflowError") or "nan" in a_tok.split(":")[-1:] or "inf" in a_tok.split(":")[-1:]):
+        return True
+    if b_tok is not None and (b_tok.startswith("r:") or b_tok.startswith("i:")):
+        body = b_tok[2:]
+        num = body.split("/")[0].lstrip("-")
+        den = body.split("/")[1] if "/" in body else "1"
+        if num.isdigit() and den.isdigit() and len(num) - len(den) > 100:
+            return True
+    return False
+
+
 def first_mismatch(impl, model):
     for i, (a, b) in enumerate(zip(impl, model)):
-        if not pat_impl.lines_equal(a, b):
-            return i, a, b
+        if pat_impl.lines_equal(a, b):
+            continue
+        ta, tb = a.strip("[]").split(), b.strip("[]").split()
+        for j in range(max(len(ta), len(tb))):
+            x = ta[j] if j < len(ta) else None
+            y = tb[j] if j < len(tb) else None
+            if _out_of_float_range(x, y):
+                return None          # everything before agreed; beyond this point the model does not apply
+            if x is None or y is None or not pat_impl.tok_equal(x, y):
+                break
+        return i, a, b
     if len(impl) != len(model):
         i = min(len(impl), len(model))
         return i, (impl[i] if i < len(impl) else "<end>"), (model[i] if i < len(model) else "<end>")
